@@ -425,6 +425,8 @@ impl<T: Sync + Send + 'static> Nucleo<T> {
                 // The worker releases the lock *before* it reads the flag, so after arming the
                 // flag either this second attempt succeeds or the worker sees the flag.
                 atomic::fence(Ordering::SeqCst);
+                #[cfg(nucleo_verif)]
+                verif::point("tick:retry_lock", 0);
                 self.worker.try_lock_arc()
             }) else {
                 return Status {
@@ -464,10 +466,14 @@ impl<T: Sync + Send + 'static> Nucleo<T> {
                 // release the worker before notifying (and before looking at the flag, see
                 // `tick_inner`): a tick triggered by the notification must find the results
                 drop(inner);
+                #[cfg(nucleo_verif)]
+                verif::point("run:released", finished as u64);
                 atomic::fence(Ordering::SeqCst);
                 if finished && should_notify.load(Ordering::Relaxed) {
                     notify()
                 }
+                #[cfg(nucleo_verif)]
+                verif::point("run:exit", 0);
             })
         }
         Status { changed, running }
